@@ -423,11 +423,13 @@ pub fn gen_desc(rng: &mut Rng, o: &GenOpts) -> DeviceDesc {
     if rng.chance(1, 3) {
         d.fmmu_ex = (0..rng.usize_below(4)).map(|_| rng.below(d.sms.len().max(1) as u64) as u8).collect();
     }
-    let ne = rng.usize_below(3);
+    // unknown / vendor / NOP categories between the known ones; a quarter of them empty (a
+    // zero-length category is legal and must simply be stepped over), occasionally a run of them
+    let ne = *rng.pick(&[0usize, 1, 2, 2, 3, 6]);
     d.extra_categories = (0..ne)
         .map(|_| {
-            let ty = *rng.pick(&[1u16, 5, 9, 20, 43, 60, 0x0800, 0x1234, 0x7fff]);
-            let l = rng.usize_below(12) * 2;
+            let ty = *rng.pick(&[0u16, 1, 5, 9, 20, 43, 60, 0x0800, 0x1234, 0x7fff]);
+            let l = if rng.chance(1, 4) { 0 } else { rng.usize_below(12) * 2 };
             (ty, rng.bytes(l))
         })
         .collect();
